@@ -466,7 +466,9 @@ def align_variable_names_with_convention(
                 # Don't rename magic members, don't rename if there is inheritance.
                 if partial_tree.bases or (name.startswith("__") and name.endswith("__")):
                     renamings[node] = {name}
-                if any(core.walk(ast_tree, ast.Attribute(attr=name))):
+                if f"{partial_tree.name}.{name}" in preserve or any(
+                    core.walk(ast_tree, ast.Attribute(attr=name))
+                ):
                     renamings[node] = {name}
                 substitute = style.rename_variable(
                     name, private=parsing.is_private(name), static=False
